@@ -48,9 +48,9 @@ claimed = {
    text="install / upgrade (reset, reuse, reset-then-reuse onto a chart version whose schema rejects the carried values) / helm-template-shaped installs whose final values violate, by construction, one rule of the root chart's or an enabled/disabled/aliased subchart's schema, with and without skip-schema-validation; the oracle demands an error naming the chart, an empty mutating-request log and an untouched store, and no rejection when the schema is satisfied, the subchart is disabled, or validation is skipped.",
    note="Schema semantics are only exercised for a constructed family (type, required, enum, minimum/maximum, additionalProperties) where validity is known by construction; lint is not run.",
    technique="deterministic simulation: request-log and storage-log oracle in front of a constructed schema family"),
- "C20": dict(level="exploration", design="§6 C20 (storage slice)",
-   text="Two slices. (a) Stored release records are damaged between steps of a history (bit flip, truncation, zero fill, garbage, base64 of non-gzip, JSON null/array/object without info, missing data key) on the Secret and ConfigMap backends; history, list, get, status, get values, upgrade, rollback and uninstall then run against the damaged store. Every operation runs under a recover guard (panic = violation), the scheduler's step budget owns 'no hang', and History must keep returning every undamaged record. (b) Index files, chart archives and provenance files are bit-flipped, truncated, emptied, wrapped in junk or stalled in transit on the simulated network; DownloadIndexFile, LoadIndexFile, IndexFile.Get, DownloadTo with verification and loader.Load must answer with a result or an error within the client time-out, never panic.",
-   note="Only the fault-shaped part of C20 is claimed: corrupted stored records and downloads damaged in transit. Byte-level mutation of charts, values, --set strings, index files, plugin manifests is input fuzzing without any schedule, clock or fault and is out of this technique (DESIGN §7).",
+ "C20": dict(level="exploration", design="§6 C20, §12",
+   text="Four slices. (a) Stored release records are damaged between steps of a history (bit flip, truncation, zero fill, garbage, base64 of non-gzip, JSON null/array/object without info, missing data key) on the Secret and ConfigMap backends; history, list, get, status, get values, upgrade, rollback and uninstall then run against the damaged store. Every operation runs under a recover guard (panic = violation), the scheduler's step budget owns 'no hang', and History must keep returning every undamaged record. (b) Index files, chart archives and provenance files are bit-flipped, truncated, emptied, wrapped in junk or stalled in transit on the simulated network; DownloadIndexFile, LoadIndexFile, IndexFile.Get, DownloadTo with verification and loader.Load must answer with a result or an error within the client time-out, never panic. (c) A chart directory or archive, its values file, ignore file and a plugin manifest are written to a scratch disk and hit by disk faults (short write, lost write, torn write against an older version of the file, flipped bit, zeroed block, duplicated block, missing file; for archives also damage of the tar stream and of the compressed bytes), biased to land right after structural tokens; ignore.ParseFile, ReadValuesFile, loader.Load, Chart.Validate, dry-run install (dependency processing, values, schema, rendering, sorting, notes), CheckDependencies, lint.RunAll and plugin.LoadDir/LoadAll/PrepareCommand must return (panic or 45 s without returning = violation), and the undamaged chart must be accepted. (d) Self-referential templates (include/template/tpl cycles, direct and through values) must end in an error; a fatal stack overflow kills the worker process and is reported from the driver's crash handling.",
+   note="Only the fault-shaped part of C20 is claimed: corrupted stored records, downloads damaged in transit, files damaged on disk (byte-level disk faults only, no grammar-aware mutation). Free-form mutation of --set strings, of values given on the command line and of rendered manifest streams is input fuzzing without any schedule, clock or fault and is out of this technique (DESIGN §7).",
    technique="deterministic simulation: stored-record corruption as an injected disk fault between operations"),
  "C05": dict(level="exploration", design="§4, §6 C05", engine="rendersim",
    text="Generated charts (partials, include/tpl nesting, range over maps, toYaml/toJson of nested maps, .Files.Get/Glob/AsConfig, hooks, several subcharts with their own NOTES.txt, schemas with $ref in several URL forms) are rendered through Install(dry-run, client-only) repeatedly (fresh map iteration orders), with permuted template/file/dependency order, under changed environment variables and working directory, with a canary file outside the chart taking four different contents, and concurrently (engine.Render on one shared chart; dry-run installs on copies). Manifest, ordered hooks and notes must be byte-identical, no canary token may appear, env/expandenv must be unavailable, and a counting resolver must see no call with DNS disabled.",
